@@ -108,6 +108,7 @@ type Engine struct {
 	tickerPeriod []*Term
 	latency      *Term
 	wgHook       FuncV
+	tickHook     FuncV // observer: a tick was taken from a ticker channel
 	watched      map[*Loc]bool
 	watchHits    int
 	sleepBudget  int
@@ -522,6 +523,7 @@ func (e *Engine) resetPathState() {
 	e.tickerPeriod = nil
 	e.latency = nil
 	e.wgHook = FuncV{}
+	e.tickHook = FuncV{}
 	e.watched = nil
 	e.watchHits = 0
 	e.sleepBudget = -1
